@@ -132,6 +132,8 @@ def slice (t : Dense) (sls : List (Option Sl)) : Res Dense := do
          else pure (some (⟨m.buf, m.off + ndStart.toNat, (ndEnd - ndStart).toNat, m.cap - ndStart.toNat⟩ : Win)))
       else pure none
     | none => pure none : Res (Option Win))
+  -- a view of a lazily transposed tensor is flagged non-contiguous (its strides are not those of its storage order)
+  let nap := if t.old.isSome && !isScalar nap.shape then { nap with o := { nap.o with nonContig := true } } else nap
   pure { ap := nap, win := w, dt := t.dt, view := true, mask := m, eng := t.eng }
 
 /-- iterator offsets of the *current* access pattern -/
